@@ -66,6 +66,7 @@ type Env struct {
 	topSt       *State
 	inTrigger   bool
 	loopPre     *State // state just before the loop (for atentry())
+	callAt      ssa.Instruction // set while evaluating a callsite clause: the call instruction
 }
 
 func (fe *FuncEnc) envAt(st *State, at *ssa.BasicBlock) *Env {
@@ -235,6 +236,11 @@ func (env *Env) ident(name string) EV {
 	}
 	if !env.inOld && env.at != nil {
 		if v, ok := fe.resolveLocal(env, name); ok {
+			return v
+		}
+	}
+	if !env.inOld && env.callAt != nil {
+		if v, ok := fe.resolveLocalAtCall(env, name); ok {
 			return v
 		}
 	}
@@ -1293,4 +1299,56 @@ func (env *Env) locsOf(l CExpr) []assignLoc {
 		out = append(out, assignLoc{hv: c.varName, addr: c.addr(v.T)})
 	}
 	return out
+}
+
+// resolveLocalAtCall finds the value a source-level local name denotes at a call instruction: the
+// SSA value of the nearest debug reference to a variable of that name that precedes the call (same
+// block, earlier) or sits in a block that dominates the call's block. Values defined after the call
+// or on paths that do not dominate it are not candidates.
+func (fe *FuncEnc) resolveLocalAtCall(env *Env, name string) (EV, bool) {
+	call := env.callAt
+	cb := call.Block()
+	idx := map[ssa.Instruction]int{}
+	for _, b := range fe.fn.Blocks {
+		for i, ins := range b.Instrs {
+			idx[ins] = i
+		}
+	}
+	var best *ssa.DebugRef
+	better := func(d *ssa.DebugRef) bool {
+		if best == nil {
+			return true
+		}
+		// later in the dominator chain wins; within one block the later instruction wins
+		if d.Block() == best.Block() {
+			return idx[d] > idx[best]
+		}
+		return best.Block().Dominates(d.Block())
+	}
+	for _, d := range fe.debugRefs {
+		if d.IsAddr {
+			continue
+		}
+		obj := debugObj(d)
+		if obj == nil || obj.Name() != name {
+			continue
+		}
+		if _, isVar := obj.(*types.Var); !isVar {
+			continue
+		}
+		if d.Block() == cb {
+			if idx[d] >= idx[call] {
+				continue
+			}
+		} else if !d.Block().Dominates(cb) {
+			continue
+		}
+		if better(d) {
+			best = d
+		}
+	}
+	if best == nil {
+		return EV{}, false
+	}
+	return EV{T: fe.val(best.X), Typ: best.X.Type()}, true
 }
